@@ -52,7 +52,7 @@ var owners = map[string][]string{
 	"resp.token":  {"C19"},
 	"bystander":   {"C04"},
 	"count":       {"C15", "C04"},
-	"locks":       {"C18", "C16"},
+	"locks":       {"C18", "C16", "C09"},
 	"hang":        {"C18", "C09"},
 	"hang.lock":   {"C18", "C09", "C16"},
 	"junk":        {"C19", "C05"},
@@ -75,9 +75,27 @@ var methodOwners = map[string][]string{
 	"ConnectionBind":   {"C16"},
 }
 
+// familyHangOwner: the property whose own machine a family of behaviours exercises.  When a replayed step of that
+// family never finishes (goroutines stuck on a lock), the outcome the property's specification prescribes for the step
+// has not materialised: a hang is a divergence for that property too (C12 "never hangs", C13 "never blocks the inbound
+// path", C14 "data keeps flowing", C16 "keeps serving"), besides the properties that speak about liveness in general.
+func familyHangOwner(family string) string {
+	switch {
+	case strings.HasPrefix(family, "clienttxn"):
+		return "C12"
+	case strings.HasPrefix(family, "tcp"):
+		return "C16"
+	}
+
+	return ""
+}
+
 // OwnedBy reports whether mismatch m, found at action a, contradicts property prop.
 func OwnedBy(m Mismatch, a map[string]any, prop string) bool {
 	if prop == "" || prop == "ALL" {
+		return true
+	}
+	if (m.Kind == "hang" || m.Kind == "hang.lock" || m.Kind == "txn.hang") && prop == familyHangOwner(walkFamily) {
 		return true
 	}
 	if name, _ := a["a"].(string); name == "ChannelBind" && prop == "C08" &&
